@@ -128,7 +128,7 @@ class RDeal:
                 k = next(j for j, (cc, _) in enumerate(self.hands[i]) if cc == c)
                 facings.append(self.hands[i][k][1])
                 self.hands[i].pop(k)
-            self.pend_hole[i] = facings
+            self.pend_hole[i] = list(self.pend_hole[i]) + facings      # (cards the street itself prescribes stay owed)
         elif t == 'HoleDealing':
             i = op.player_index
             if self.burn_pending:
